@@ -212,9 +212,16 @@ def gen_case(chk, i):
             ops, sh = gen_soup(rng, rng.choice([100, 1000]), big=1)
             secs.append((2000 + t, ops))
         info.update(kind="mt-soup", threads=nth)
-    else:
+    elif (i // 10) % 2 == 0:
         ops, sh = gen_soup(rng, rng.choice([200, 2000]))
         info.update(kind="soup-shortwrite", nops=len(ops), shortwrite=rng.randint(1, 10 ** 6))
+        secs = [(1000 + i % 50, ops)]
+    else:
+        # writes that fail with EINTR (signal without SA_RESTART): the library
+        # may stop with a diagnostic, but if the program runs to the end the
+        # stream must still be exact
+        ops, sh = gen_soup(rng, rng.choice([50, 400]))
+        info.update(kind="soup-eintr", nops=len(ops), eintr=rng.randint(1, 10 ** 6))
         secs = [(1000 + i % 50, ops)]
     info["script"] = make_script(secs)
     info["autoflush_expected"] = None
@@ -233,9 +240,11 @@ def run_case(i, script=None, info=None):
     env = {}
     if info.get("shortwrite"):
         env["RTDRV_SHORTWRITE"] = str(info["shortwrite"])
+    if info.get("eintr"):
+        env["RTDRV_EINTR"] = str(info["eintr"])
     res = rt.run_script(drv, info["script"], wd, env=env, timeout=120)
     out = {"i": i, "kind": info["kind"], "viol": None, "inconclusive": None,
-           "events": 0, "markers": 0, "bytes": 0, "feat": set(), "shortwrites": 0}
+           "events": 0, "markers": 0, "bytes": 0, "feat": set(), "shortwrites": 0, "aborted_on_fault": 0}
     try:
         if res.timeout:
             out["inconclusive"] = "driver timed out"
@@ -246,6 +255,9 @@ def run_case(i, script=None, info=None):
             return out
         if res.rc in (97, 98):
             raise core.HarnessError("rtdrv harness error: " + res.err[-500:])
+        if info.get("eintr") and res.sig == 6 and "failed to write" in res.err:
+            out["aborted_on_fault"] = 1      # terminated with a diagnostic: allowed, nothing to compare
+            return out
         if res.rc != 0 or "RTDRV-DONE" not in res.out:
             out["viol"] = ("driver-died:rc=%s:sig=%s" % (res.rc, res.sig),
                            "library terminated a program that only used accepted API calls", res.brief())
@@ -318,7 +330,7 @@ def main(argv):
     else:
         n = 60 if chk.tier == "quick" else 1500
         cases = list(range(n))
-    tot = {"events": 0, "markers": 0, "bytes": 0, "shortwrites": 0}
+    tot = {"events": 0, "markers": 0, "bytes": 0, "shortwrites": 0, "aborted_on_fault": 0}
     kinds = {}
     feats = set()
     deltas_seen = set()
@@ -356,6 +368,7 @@ def main(argv):
         "flush_markers_seen": tot["markers"],
         "stream_bytes_decoded": tot["bytes"],
         "partial_writes_injected": tot["shortwrites"],
+        "eintr_runs_terminated_with_diagnostic": tot["aborted_on_fault"],
         "cases_by_kind": kinds,
         "boundary_deltas_covered": sorted(deltas_seen)[:80],
         "payload_classes_seen": sorted("%s%d" % (f[1], f[2]) for f in feats if f[0] == "size"),
